@@ -193,6 +193,129 @@ def parseCondDir (j : Json) : R CondDir := do
   | "ifndef" => return .ifndef (← str j "s")
   | _ => throw s!"cond dir {d}"
 
+def parseCodeCfg (j : Json) : R CodeCfg := do
+  let pos := match optStr j "pos" with | some "prefix" => CodePos.prefix | _ => CodePos.suffix
+  return { value := ← int j "v", size := ← nat j "n", pos := pos }
+
+def optCode (j : Json) : R (Option CodeCfg) :=
+  match fldOpt j "code" with | none => pure none | some c => do pure (some (← parseCodeCfg c))
+
+def parseArgCfg (j : Json) : R ArgCfg := do
+  return { size := ← nat j "n", align := boolD j "align" false, little := boolD j "little" false }
+
+def parseIntDict (j : Json) : R (List (Int × Int)) := do
+  (← j.getArr?).toList.mapM fun e => do let a ← e.getArr?; pure ((← a[0]!.getInt?), (← a[1]!.getInt?))
+
+def parseStrDict (j : Json) : R (List (String × Int)) := do
+  (← j.getArr?).toList.mapM fun e => do let a ← e.getArr?; pure ((← a[0]!.getStr?), (← a[1]!.getInt?))
+
+def posOf (j : Json) : CodePos := match optStr j "pos" with | some "prefix" => .prefix | _ => .suffix
+
+def parseIdxCfg (j : Json) : R IdxCfg := do
+  let t ← str j "t"
+  match t with
+  | "numeric" => return .numeric (← optCode j) (← parseArgCfg (← fld j "arg"))
+  | "register" => return .register (← str j "r") (← optCode j)
+  | "numeric_bytecode" => return .numBytecode (← nat j "n") (← int j "min") (← int j "max")
+  | _ => throw s!"idx cfg {t}"
+
+def parseIdxList (j : Json) : R (List (String × IdxCfg)) := do
+  (← (← fld j "idx").getArr?).toList.mapM fun e => do pure ((← str e "id"), (← parseIdxCfg e))
+
+def parseOperandCfg (j : Json) : R OperandCfg := do
+  let t ← str j "t"
+  match t with
+  | "numeric" => return .numeric (← optCode j) (← parseArgCfg (← fld j "arg")) (boolD j "va" false)
+  | "address" => return .address (← optCode j) (← parseArgCfg (← fld j "arg")) (← int j "zs") (← int j "ze") (boolD j "sliced" false)
+  | "relative_address" => return .relAddr (← optCode j) (← parseArgCfg (← fld j "arg")) (optInt j "min") (optInt j "max")
+                            (boolD j "fromEnd" false) (boolD j "curly" false)
+  | "numeric_bytecode" => return .numBytecode (← nat j "n") (posOf j) (← int j "min") (← int j "max")
+  | "numeric_enumeration" => do
+    let code ← match fldOpt j "code" with
+      | none => pure none
+      | some c => do pure (some ((← nat c "n"), posOf c, (← parseIntDict (← fld c "dict"))))
+    let arg ← match fldOpt j "arg" with
+      | none => pure none
+      | some a => do pure (some ((← parseArgCfg a), (← parseIntDict (← fld a "dict"))))
+    return .numEnum code arg
+  | "enumeration" => do
+    let code ← match fldOpt j "code" with
+      | none => pure none
+      | some c => do pure (some ((← nat c "n"), posOf c, (← parseStrDict (← fld c "dict"))))
+    let a ← fld j "arg"
+    return .enumeration code (← parseArgCfg a) (← parseStrDict (← fld a "dict"))
+  | "register" => return .register (← str j "r") (← optCode j) ((optStr j "decoPre").getD "") ((optStr j "decoPost").getD "")
+  | "indirect_register" => do
+    let off ← match fldOpt j "offset" with | none => pure none | some o => do pure (some (← parseArgCfg o))
+    return .indReg (← str j "r") (← optCode j) off
+  | "indirect_numeric" => return .indNum (← optCode j) (← parseArgCfg (← fld j "arg"))
+  | "deferred_numeric" => return .defNum (← optCode j) (← parseArgCfg (← fld j "arg"))
+  | "indexed_register" => return .idxReg (← str j "r") (← optCode j) (← parseIdxList j)
+  | "indirect_indexed_register" => return .indIdxReg (← str j "r") (← optCode j) (← parseIdxList j)
+  | "empty" => return .empty (← optCode j)
+  | _ => throw s!"operand cfg {t}"
+
+def parseOpList (j : Json) : R (List (String × OperandCfg)) := do
+  (← j.getArr?).toList.mapM fun e => do pure ((← str e "id"), (← parseOperandCfg e))
+
+def parseForm (j : Json) : R Form := do
+  let f ← str j "f"
+  match f with
+  | "plain" => return .plain (← parseE (← fld j "e"))
+  | "ind" => return .ind (← parseE (← fld j "e"))
+  | "ind2" => return .ind2 (← parseE (← fld j "e"))
+  | "curly" => return .curly (← parseE (← fld j "e"))
+  | "deco" => return .deco ((optStr j "pre").getD "") (← str j "r") ((optStr j "post").getD "")
+  | _ => throw s!"form {f}"
+
+def parseVariant (j : Json) : R VariantCfg := do
+  let opcode ← parseField (← fld j "opcode")
+  let sfx ← match fldOpt j "suffix" with | none => pure none | some s => do pure (some (← parseField s))
+  let count := (fldOpt j "count").bind fun c => c.getNat?.toOption
+  let specific ← match fldOpt j "specific" with
+    | none => pure []
+    | some a => do (← a.getArr?).toList.mapM fun s => do
+        pure ({ ops := ← parseOpList (← fld s "ops"), revArgs := boolD s "revArgs" false, revCodes := boolD s "revCodes" false } : SpecificCfg)
+  let sets ← match fldOpt j "sets" with
+    | none => pure none
+    | some sc => do
+      let ss ← (← (← fld sc "sets").getArr?).toList.mapM parseOpList
+      let dis ← match fldOpt sc "disallowed" with
+        | none => pure []
+        | some d => do (← d.getArr?).toList.mapM fun p => do (← p.getArr?).toList.mapM fun x => x.getStr?
+      pure (some ({ sets := ss, disallowed := dis, revArgs := boolD sc "revArgs" false, revCodes := boolD sc "revCodes" false } : SetsCfg))
+  return { opcode := opcode, suffix := sfx, count := count, specific := specific, sets := sets }
+
+def parseTForm (j : Json) : R TForm := do
+  let t ← str j "t"
+  match t with
+  | "fixed" => return .fixed (← parseForm (← fld j "form"))
+  | "arg" => return .arg (← nat j "n")
+  | "indArg" => return .indArg (← nat j "n")
+  | "argPlus" => return .argPlus (← nat j "n") (← int j "k")
+  | "reg" => return .reg (← nat j "n")
+  | "indReg" => return .indReg (← nat j "n")
+  | "op" => return .op (← nat j "n")
+  | _ => throw s!"tform {t}"
+
+def parseInstrTable (j : Json) (k : String) : R InstrTable :=
+  match fldOpt j k with
+  | none => pure []
+  | some a => do (← a.getArr?).toList.mapM fun e => do
+      pure ((← str e "mn"), (← (← arr e "variants").toList.mapM parseVariant))
+
+def parseMacroVariants (a : Array Json) : R (List MacroVariant) :=
+  a.toList.mapM fun mv => do
+    let steps ← (← arr mv "steps").toList.mapM fun st => do
+      pure ({ mnemonic := ← str st "mn", ops := ← (← arr st "ops").toList.mapM parseTForm } : Step)
+    pure ({ operands := ← parseVariant (← fld mv "operands"), steps := steps } : MacroVariant)
+
+def parseMacroTable (j : Json) (k : String) : R (List (String × List MacroVariant)) :=
+  match fldOpt j k with
+  | none => pure []
+  | some a => do (← a.getArr?).toList.mapM fun e => do
+      pure ((← str e "mn"), (← parseMacroVariants (← arr e "variants")))
+
 def parseStmt (j : Json) : R Stmt := do
   let k ← str j "k"
   match k with
@@ -215,6 +338,7 @@ def parseStmt (j : Json) : R Stmt := do
       let x ← a.getArr?
       pure ((← parseE x[0]!), (← x[1]!.getNat?))
     return .instr (← nat j "opcode") args
+  | "isa" => return .isa ((← str j "mn").toLower) (← (← arr j "forms").toList.mapM parseForm)
   | "mute" => return .mute
   | "unmute" => return .unmute
   | "createZone" => return .createZone (← str j "name") (← int j "s") (← int j "e")
@@ -242,7 +366,7 @@ def parseCfg (j : Json) : R Cfg := do
         pure ((← str e "name"), (← parseSymVal e))
   return { bits := ← nat j "bits", origin := intD j "origin" 0, little := boolD j "little" false,
            pageSize := intD j "pageSize" 1, regs := regs, preZones := preZones, preConsts := preConsts,
-           preData := preData, preSyms := preSyms }
+           preData := preData, preSyms := preSyms, tbl := ← parseInstrTable j "instrs", macros := ← parseMacroTable j "macros" }
 
 def jMap (m : AddrMap) : Json := Json.arr (m.map fun (a, b) => Json.arr #[jInt a, Json.num (JsonNumber.fromNat b)]).toArray
 
@@ -368,99 +492,6 @@ def opDecode (j : Json) : R Json := do
     | .error e => return jErr e
   | _ => throw s!"format {fmt}"
 
-def parseCodeCfg (j : Json) : R CodeCfg := do
-  let pos := match optStr j "pos" with | some "prefix" => CodePos.prefix | _ => CodePos.suffix
-  return { value := ← int j "v", size := ← nat j "n", pos := pos }
-
-def optCode (j : Json) : R (Option CodeCfg) :=
-  match fldOpt j "code" with | none => pure none | some c => do pure (some (← parseCodeCfg c))
-
-def parseArgCfg (j : Json) : R ArgCfg := do
-  return { size := ← nat j "n", align := boolD j "align" false, little := boolD j "little" false }
-
-def parseIntDict (j : Json) : R (List (Int × Int)) := do
-  (← j.getArr?).toList.mapM fun e => do let a ← e.getArr?; pure ((← a[0]!.getInt?), (← a[1]!.getInt?))
-
-def parseStrDict (j : Json) : R (List (String × Int)) := do
-  (← j.getArr?).toList.mapM fun e => do let a ← e.getArr?; pure ((← a[0]!.getStr?), (← a[1]!.getInt?))
-
-def posOf (j : Json) : CodePos := match optStr j "pos" with | some "prefix" => .prefix | _ => .suffix
-
-def parseIdxCfg (j : Json) : R IdxCfg := do
-  let t ← str j "t"
-  match t with
-  | "numeric" => return .numeric (← optCode j) (← parseArgCfg (← fld j "arg"))
-  | "register" => return .register (← str j "r") (← optCode j)
-  | "numeric_bytecode" => return .numBytecode (← nat j "n") (← int j "min") (← int j "max")
-  | _ => throw s!"idx cfg {t}"
-
-def parseIdxList (j : Json) : R (List (String × IdxCfg)) := do
-  (← (← fld j "idx").getArr?).toList.mapM fun e => do pure ((← str e "id"), (← parseIdxCfg e))
-
-def parseOperandCfg (j : Json) : R OperandCfg := do
-  let t ← str j "t"
-  match t with
-  | "numeric" => return .numeric (← optCode j) (← parseArgCfg (← fld j "arg")) (boolD j "va" false)
-  | "address" => return .address (← optCode j) (← parseArgCfg (← fld j "arg")) (← int j "zs") (← int j "ze") (boolD j "sliced" false)
-  | "relative_address" => return .relAddr (← optCode j) (← parseArgCfg (← fld j "arg")) (optInt j "min") (optInt j "max")
-                            (boolD j "fromEnd" false) (boolD j "curly" false)
-  | "numeric_bytecode" => return .numBytecode (← nat j "n") (posOf j) (← int j "min") (← int j "max")
-  | "numeric_enumeration" => do
-    let code ← match fldOpt j "code" with
-      | none => pure none
-      | some c => do pure (some ((← nat c "n"), posOf c, (← parseIntDict (← fld c "dict"))))
-    let arg ← match fldOpt j "arg" with
-      | none => pure none
-      | some a => do pure (some ((← parseArgCfg a), (← parseIntDict (← fld a "dict"))))
-    return .numEnum code arg
-  | "enumeration" => do
-    let code ← match fldOpt j "code" with
-      | none => pure none
-      | some c => do pure (some ((← nat c "n"), posOf c, (← parseStrDict (← fld c "dict"))))
-    let a ← fld j "arg"
-    return .enumeration code (← parseArgCfg a) (← parseStrDict (← fld a "dict"))
-  | "register" => return .register (← str j "r") (← optCode j) ((optStr j "decoPre").getD "") ((optStr j "decoPost").getD "")
-  | "indirect_register" => do
-    let off ← match fldOpt j "offset" with | none => pure none | some o => do pure (some (← parseArgCfg o))
-    return .indReg (← str j "r") (← optCode j) off
-  | "indirect_numeric" => return .indNum (← optCode j) (← parseArgCfg (← fld j "arg"))
-  | "deferred_numeric" => return .defNum (← optCode j) (← parseArgCfg (← fld j "arg"))
-  | "indexed_register" => return .idxReg (← str j "r") (← optCode j) (← parseIdxList j)
-  | "indirect_indexed_register" => return .indIdxReg (← str j "r") (← optCode j) (← parseIdxList j)
-  | "empty" => return .empty (← optCode j)
-  | _ => throw s!"operand cfg {t}"
-
-def parseOpList (j : Json) : R (List (String × OperandCfg)) := do
-  (← j.getArr?).toList.mapM fun e => do pure ((← str e "id"), (← parseOperandCfg e))
-
-def parseForm (j : Json) : R Form := do
-  let f ← str j "f"
-  match f with
-  | "plain" => return .plain (← parseE (← fld j "e"))
-  | "ind" => return .ind (← parseE (← fld j "e"))
-  | "ind2" => return .ind2 (← parseE (← fld j "e"))
-  | "curly" => return .curly (← parseE (← fld j "e"))
-  | "deco" => return .deco ((optStr j "pre").getD "") (← str j "r") ((optStr j "post").getD "")
-  | _ => throw s!"form {f}"
-
-def parseVariant (j : Json) : R VariantCfg := do
-  let opcode ← parseField (← fld j "opcode")
-  let sfx ← match fldOpt j "suffix" with | none => pure none | some s => do pure (some (← parseField s))
-  let count := (fldOpt j "count").bind fun c => c.getNat?.toOption
-  let specific ← match fldOpt j "specific" with
-    | none => pure []
-    | some a => do (← a.getArr?).toList.mapM fun s => do
-        pure ({ ops := ← parseOpList (← fld s "ops"), revArgs := boolD s "revArgs" false, revCodes := boolD s "revCodes" false } : SpecificCfg)
-  let sets ← match fldOpt j "sets" with
-    | none => pure none
-    | some sc => do
-      let ss ← (← (← fld sc "sets").getArr?).toList.mapM parseOpList
-      let dis ← match fldOpt sc "disallowed" with
-        | none => pure []
-        | some d => do (← d.getArr?).toList.mapM fun p => do (← p.getArr?).toList.mapM fun x => x.getStr?
-      pure (some ({ sets := ss, disallowed := dis, revArgs := boolD sc "revArgs" false, revCodes := boolD sc "revCodes" false } : SetsCfg))
-  return { opcode := opcode, suffix := sfx, count := count, specific := specific, sets := sets }
-
 /-- op "stmt": variant / operand selection and encoding of one instruction statement -/
 def opStmt (j : Json) : R Json := do
   let regs ← (← arr j "regs").toList.mapM fun r => r.getStr?
@@ -478,18 +509,6 @@ def opStmt (j : Json) : R Json := do
   match assembleStmt regs gz env addr variants forms with
   | .ok (i, bs) => return Json.mkObj [("variant", Json.num (JsonNumber.fromNat i)), ("bytes", jNats bs), ("sel", sel)]
   | .error e => return Json.mkObj [("err", Json.str e.name), ("sel", sel)]
-
-def parseTForm (j : Json) : R TForm := do
-  let t ← str j "t"
-  match t with
-  | "fixed" => return .fixed (← parseForm (← fld j "form"))
-  | "arg" => return .arg (← nat j "n")
-  | "indArg" => return .indArg (← nat j "n")
-  | "argPlus" => return .argPlus (← nat j "n") (← int j "k")
-  | "reg" => return .reg (← nat j "n")
-  | "indReg" => return .indReg (← nat j "n")
-  | "op" => return .op (← nat j "n")
-  | _ => throw s!"tform {t}"
 
 /-- op "macro": macro variant selection, template instantiation, step-by-step assembly -/
 def opMacro (j : Json) : R Json := do
